@@ -1,32 +1,47 @@
 ------------------------- MODULE TraceDeb822Value -------------------------
 (***************************************************************************)
-(* C08 -- trace validation: assignments recorded from the real Deb822 /    *)
-(* Dsc classes (harness/props/c08.py) are checked against Deb822Value on   *)
-(* the CONCRETE code points (arbitrary printable text, values up to 40     *)
-(* characters, neighbour fields that themselves hold accepted multi-line   *)
-(* values).                                                                *)
-(* A trace is [init |-> paragraph, deep |-> BOOLEAN, events |-> <<event>>];*)
-(* a paragraph is a sequence of [k, v] (code point sequences); an event is *)
-(*   [pos, v, acc, res, items, rb]:                                        *)
-(*   pos    index of the field assigned to, v the value given,             *)
+(* C08 -- trace validation: assignment histories recorded from real        *)
+(* Deb822 / Dsc / Changes objects (harness/props/c08.py) are checked       *)
+(* against Deb822Value on the CONCRETE code points (arbitrary printable    *)
+(* text, values up to 40 characters, fields that themselves hold accepted  *)
+(* multi-line values, field names up to 65 characters).  Bigger sizes      *)
+(* (values of 4 KiB / 64 KiB, 100 / 1 000 continuation lines, paragraphs   *)
+(* of 100 fields) are NOT scanned by TLC: they go through the CASE / LTS   *)
+(* replay, whose expectations TLC derived from the small abstract value    *)
+(* and which are length-independent (size lemmas of Deb822Value).          *)
+(* A trace is [objs, deep, events]: objs = the LIVE objects, each          *)
+(* [cls |-> "Deb822" | "Dsc" | "Changes", para |-> paragraph]; a paragraph *)
+(* is a sequence of [k, v] (code point sequences).  An event is            *)
+(*   [obj, cls, key, v, acc, res, items, rb]:                              *)
+(*   obj    index of the live object assigned to; 0 = a throw-away object  *)
+(*          of class cls receiving v under a MULTIVALUED key (Files ...),  *)
+(*   key    the field name (present or absent in the paragraph), v the     *)
+(*          value given,                                                   *)
 (*   acc    TRUE iff the assignment returned normally, res "ok" /          *)
 (*          "ValueError" / "EXC:<type>",                                   *)
-(*   items  the paragraph read from the object after the call,             *)
-(*   rb     when accepted: what list(Deb822.iter_paragraphs(dump, ...))    *)
-(*          gave, [st, paras (key list per paragraph)], for the input      *)
-(*          forms s (str), f (io.StringIO), b (io.BytesIO) and the         *)
-(*          settings F (whitespace-separates-paragraphs: False) and T      *)
-(*          (default):  sF sT fF fT bF bT; stored as a table of the        *)
-(*          distinct observations (rb.o) and an index per name (rb.ix).    *)
-(* An event is explained when                                              *)
+(*   items  the paragraphs of ALL live objects read after the call,        *)
+(*   rb     when accepted on a live object: what                           *)
+(*          list(Deb822.iter_paragraphs(dump, ...)) gave, [st, paras (key  *)
+(*          list per paragraph)], for the input forms s (str),             *)
+(*          f (io.StringIO), b (io.BytesIO) and the settings F             *)
+(*          (whitespace-separates-paragraphs: False) and T (default):      *)
+(*          sF sT fF fT bF bT; stored as a table of the distinct           *)
+(*          observations (rb.o) and an index per name (rb.ix).             *)
+(* The reference is HISTORY-FREE (Deb822ValueHist): an event is explained  *)
+(* by the class, the key and the value alone, whatever happened before --  *)
 (*   - acc agrees with Classify(v) where the statement decides ("accept" / *)
 (*     "reject"; "zone" and "blank" are unspecified: the trace follows the *)
 (*     code's decision),                                                   *)
-(*   - not accepted: res = "ValueError" and items = the paragraph before,  *)
-(*   - accepted: items has the field names of the paragraph before (it is  *)
-(*     adopted as the new paragraph), and every read-back with setting F   *)
-(*     -- and with T when no value of the paragraph has a blank            *)
-(*     continuation line -- is exactly one paragraph with those names.     *)
+(*   - not accepted: res = "ValueError" and the paragraph is unchanged,    *)
+(*   - accepted: the paragraph has the field names SetField gives (the old *)
+(*     ones, plus the new key at the end); it is adopted as the new        *)
+(*     paragraph; every read-back with setting F -- and with T when no     *)
+(*     value of the paragraph has a blank continuation line -- is exactly  *)
+(*     one paragraph with those names,                                     *)
+(*   - every OTHER live paragraph is exactly what it was,                  *)
+(*   - a multivalued-key event (obj = 0) is outside the property's domain: *)
+(*     any outcome, but no live paragraph may change (and, because the     *)
+(*     reference is history-free, no later verdict either).                *)
 (* Independently (diagnostic, never a rejection) the reader model of       *)
 (* Deb822Value is evaluated on the concrete dump and compared with all six *)
 (* observed read-backs, the stored value with v and Validate with the      *)
@@ -40,18 +55,26 @@ EXTENDS Deb822Value, IOUtils, TLCExt
 Traces == JsonDeserialize(IOEnv.TRACE_FILE)
 Diag   == IOEnv.TRACE_DIAG = "1"
 
-VARIABLES tid, l
+VARIABLES tid, l, ps            \* ps[o]: paragraph of live object o
 
 Tr == Traces[tid]
 
+\* field names that the class does not validate (lower case): outside the domain of C08
+MultiNames == {<<102, 105, 108, 101, 115>>,
+               <<99, 104, 101, 99, 107, 115, 117, 109, 115, 45, 115, 104, 97, 49>>,
+               <<99, 104, 101, 99, 107, 115, 117, 109, 115, 45, 115, 104, 97, 50, 53, 54>>,
+               <<99, 104, 101, 99, 107, 115, 117, 109, 115, 45, 115, 104, 97, 53, 49, 50>>}
+IsMultiKeyC(cls, k) == cls # "Deb822" /\ \E m \in MultiNames : SameName(k, m)
+
 TInit == /\ tid \in 1..Len(Traces)
          /\ l = 1
-         /\ inp = <<>> /\ out = <<>> /\ res = "none"
-         /\ para = Traces[tid].init
+         /\ inp = <<>> /\ out = <<>> /\ res = "none" /\ para = <<>>
+         /\ ps = [o \in 1..Len(Traces[tid].objs) |-> Traces[tid].objs[o].para]
 
+ClsOf(o) == Tr.objs[o].cls
 \* the statement speaks about "the paragraph" after an accepted assignment, not about how the
-\* value is stored: the observed paragraph is adopted (its field names must be the old ones)
-After(e) == IF e.acc THEN e.items ELSE para
+\* value is stored: the observed paragraph is adopted (its field names are checked)
+After(e) == IF e.acc THEN e.items[e.obj] ELSE ps[e.obj]
 
 \* rb = [o |-> <<distinct observations>>, ix |-> [sF |-> index into o, ...]]
 RBof(e, n) == e.rb.o[e.rb.ix[n]]
@@ -64,42 +87,49 @@ Checks(e) == LET cls == Classify(e.v)
              IN << <<"must-accept", cls = "accept" => e.acc>>,
                    <<"must-reject", cls = "reject" => ~e.acc>>,
                    <<"exception-type", e.res = IF e.acc THEN "ok" ELSE "ValueError">>,
-                   <<"reject-atomic", ~e.acc => e.items = para>>,
-                   <<"keys-kept", e.acc => KeysOf(e.items) = KeysOf(para)>>,
+                   <<"reject-atomic", ~e.acc => e.items[e.obj] = ps[e.obj]>>,
+                   <<"keys-kept", e.acc => KeysOf(e.items[e.obj]) = KeysOf(SetField(ps[e.obj], e.key, e.v))>>,
+                   <<"others-unchanged", \A o \in 1..Len(ps) : o # e.obj => e.items[o] = ps[o]>>,
                    <<"readback-ws-false", e.acc => \A n \in FNames : RBof(e, n) = OneParagraph(q)>>,
                    <<"readback-default", (e.acc /\ AllNoBlank(q)) => \A n \in TNames : RBof(e, n) = OneParagraph(q)>> >>
-Explained(e) == LET c == Checks(e) IN \A i \in 1..Len(c) : c[i][2]
-Reasons(e)   == LET c == Checks(e) IN SelectSeq([i \in 1..Len(c) |-> IF c[i][2] THEN "" ELSE c[i][1]], LAMBDA s : s # "")
+ScratchChecks(e) == << <<"others-unchanged", e.items = ps>> >>
+AllChecks(e) == IF e.obj = 0 THEN ScratchChecks(e) ELSE Checks(e)
+Explained(e) == LET c == AllChecks(e) IN \A i \in 1..Len(c) : c[i][2]
+Reasons(e)   == LET c == AllChecks(e) IN SelectSeq([i \in 1..Len(c) |-> IF c[i][2] THEN "" ELSE c[i][1]], LAMBDA s : s # "")
+WellFormed(e) == /\ Len(e.items) = Len(ps)
+                 /\ \/ e.obj = 0 /\ IsMultiKeyC(e.cls, e.key)
+                    \/ e.obj \in 1..Len(ps) /\ e.cls = ClsOf(e.obj) /\ ~IsMultiKeyC(e.cls, e.key)
 
 \* the transcription of the reader, evaluated on the concrete text
-ModelAgrees(e) == e.acc =>
+ModelAgrees(e) == (e.obj # 0 /\ e.acc) =>
                   LET o == ObsAll(After(e)) IN
-                  /\ e.items = Stored(para, e.pos, e.v)
+                  /\ e.items[e.obj] = SetField(ps[e.obj], e.key, e.v)
                   /\ RBof(e, "sF") = o["str"][FALSE]  /\ RBof(e, "sT") = o["str"][TRUE]
                   /\ RBof(e, "fF") = o["file"][FALSE] /\ RBof(e, "fT") = o["file"][TRUE]
                   /\ RBof(e, "bF") = o["file"][FALSE] /\ RBof(e, "bT") = o["file"][TRUE]
 \* the transcription of the validator against the statement layer, on the concrete value
-ValidatorAgrees(e) == Accept(e.v) <=> ~DefectU(e.v)
+ValidatorAgrees(e) == /\ Accept(e.v) <=> ~DefectU(e.v)
+                      /\ e.obj # 0 => (e.acc <=> Accept(e.v))
 
 TStep == /\ l <= Len(Tr.events)
          /\ LET e == Tr.events[l] IN
-              /\ e.pos \in 1..Len(para)
+              /\ WellFormed(e)
               /\ Explained(e)
               /\ ((Tr.deep /\ (~ModelAgrees(e) \/ ~ValidatorAgrees(e))) => PrintT(<<"REJECT", tid, l, "model">>))
-              /\ para' = After(e)
+              /\ ps' = IF e.obj = 0 THEN ps ELSE [ps EXCEPT ![e.obj] = After(e)]
               /\ res' = e.res
-         /\ l' = l + 1 /\ UNCHANGED <<tid, inp, out>>
+         /\ l' = l + 1 /\ UNCHANGED <<tid, inp, out, para>>
          /\ (Diag => PrintT(<<"AT", tid, l>>))
          /\ (l' = Len(Tr.events) + 1 => PrintT(<<"ACCEPTED", tid>>))
 
 TWhy == /\ Diag
         /\ l <= Len(Tr.events)
         /\ LET e == Tr.events[l] IN
-             /\ e.pos \in 1..Len(para)
+             /\ WellFormed(e)
              /\ ~Explained(e)
              /\ PrintT(<<"REJECT", tid, l, Reasons(e)>>)
         /\ FALSE
-        /\ UNCHANGED <<vars, tid, l>>
+        /\ UNCHANGED <<vars, tid, l, ps>>
 
-TSpec == TInit /\ [][TStep \/ TWhy]_<<vars, tid, l>>
+TSpec == TInit /\ [][TStep \/ TWhy]_<<vars, tid, l, ps>>
 =============================================================================
